@@ -247,7 +247,7 @@ func refBFS(c *explore.Ctx, pool *explore.Pool, prefix, depth int) (states, tran
 		out := make([]refResult, len(tasks))
 		pool.Map(raw, func(i int, b []byte, err error) {
 			if err != nil {
-				out[i].Viol = []string{"worker crashed: " + err.Error()}
+				out[i].Viol = explore.CrashViol(err)
 				return
 			}
 			json.Unmarshal(b, &out[i])
@@ -421,7 +421,7 @@ func init() {
 					Viol []string `json:"viol"`
 				}
 				if err != nil {
-					r.Viol = []string{"worker crashed: " + err.Error()}
+					r.Viol = explore.CrashViol(err)
 				} else {
 					json.Unmarshal(b, &r)
 				}
